@@ -437,9 +437,25 @@ func lemmaTickMonotone(intervalStart uint64, intervalsPerDay uint32, t1, t2 uint
 //@ trusted "hands the command to the WAL goroutine (channel send)"
 //@ modifies none
 
+// A variable-length record in a write command is the row without its 8-byte epoch followed by the 4-byte interval
+// ticks; a fixed-length record is the row without its epoch (the slot index carries the time).
+//@ func appendIntervalTicks
+//@ props C09
+//@ option noimplicit
+//@ assumepre io.GetIntervalTicks32Bit.index "the caller passes the slot index of ts (TimeToIndex), C10/C30"
+//@ assumepre io.GetIntervalTicks32Bit.year "as above"
+//@ assumepre io.GetIntervalTicks32Bit.inInterval "as above"
+//@ forget io.GetIntervalTicks32Bit.hi io.GetIntervalTicks32Bit.lo io.Serialize.head8 io.Serialize.head16
+//@ ensures #len: len(outBuf) == len(buf) + 4
+//@ ensures #prefix: forall(k, 0, len(buf), outBuf[k] == old(buf[k]))
+
 //@ func formatRecord
-//@ trusted "drops the 8-byte epoch; for variable-length rows appends the row and its interval ticks to buf"
-//@ modifies mem:uint8
+//@ props C09
+//@ requires #row: len(row) >= 8
+//@ ensures #fixed: !isVariable ==> (len(result) == len(row) - 8 && base(result) == base(row) + 8)
+//@ ensures #variable: isVariable ==> len(result) == len(buf) + len(row) - 8 + 4
+//@ ensures #kept: isVariable ==> forall(k, 0, len(buf), result[k] == old(buf[k]))
+//@ ensures #payload: isVariable ==> forall(k, 0, len(row) - 8, result[len(buf) + k] == old(row[8 + k]))
 
 //@ func (*@/catalog.Directory).GetSubDirectoryAndAddFile
 //@ trusted "catalog: returns the TimeBucketInfo of the bucket's file for that year, creating the file if needed"
@@ -453,6 +469,7 @@ func lemmaTickMonotone(intervalStart uint64, intervalsPerDay uint32, t1, t2 uint
 //@ option noimplicit
 //@ assumepre io.TimeToIndex.tf "catalog invariant: a bucket's timeframe is positive"
 //@ assumepre io.IndexToOffset.tf "catalog invariant"
+//@ assumepre executor.formatRecord.row "every row of a request starts with its 8-byte epoch (SerializeColumnsToRows puts Epoch first)"
 //@ forget io.TimeToIndex.subday io.TimeToIndex.daily io.IndexToOffset.spec io.IndexToOffset.exact
 //@ requires #tbi: tbi != nil && tbi.IsRead && pathYear(tbi.Path) == tbi.Year
 //@ loop 0 invariant #idx: 0 <= i
